@@ -11,7 +11,7 @@ fn ilist(rng: &mut Rng, n: usize) -> String {
 
 /// One block of forms; `u` is a unique suffix for global names.
 pub fn block(rng: &mut Rng, u: usize, tags: &mut Vec<String>) -> Vec<String> {
-    let t = rng.below(15);
+    let t = rng.below(17);
     tags.push(format!("cont-t{}", t));
     let a = rng.range(1, 9);
     let b = rng.range(2, 5);
@@ -199,6 +199,38 @@ pub fn block(rng: &mut Rng, u: usize, tags: &mut Vec<String>) -> Vec<String> {
                     u = u, n = 1 + rng.below(5)
                 ),
             ]
+        }
+        14 => {
+            // call/cc inside a closure activation; the resumed frame reads the activation's variables
+            // after the call/cc operand (the activation's environment lives only in the continuation)
+            let mut f = vec![
+                format!("(define k{u} #f)", u = u),
+                format!("(define c{u} 0)", u = u),
+                format!("(define (mk{u} n) (lambda (x) (+ (call/cc (lambda (c) (set! k{u} c) 0)) n x)))", u = u),
+                format!("((mk{u} {}) {})", a * 100, b, u = u),
+                format!("(define (junk{u} n) (if (= n 0) '() (cons (vector n n) (junk{u} (- n 1)))))", u = u),
+                format!("(length (junk{u} 40))", u = u),
+            ];
+            for _ in 0..=r {
+                f.push(format!("(if (< c{u} 3) (begin (set! c{u} (+ c{u} 1)) (k{u} c{u})) 'done)", u = u));
+            }
+            f
+        }
+        15 => {
+            // a continuation captured deep inside a non-tail recursion (a stack of several hundred slots),
+            // re-entered from later top-level forms
+            let d = 40 + rng.below(120);
+            let mut f = vec![
+                format!("(define k{u} #f)", u = u),
+                format!("(define n{u} 0)", u = u),
+                format!("(define (deep{u} d) (if (= d 0) (call/cc (lambda (c) (set! k{u} c) 0)) (+ 1 (deep{u} (- d 1)))))", u = u),
+                format!("(deep{u} {})", d, u = u),
+                "(+ 1 2)".to_string(),
+            ];
+            for _ in 0..=r {
+                f.push(format!("(if (< n{u} 2) (begin (set! n{u} (+ n{u} 1)) (k{u} n{u})) 'done)", u = u));
+            }
+            f
         }
         _ => {
             // invoked from inside a for-each callback of a later form: abandons that loop
